@@ -169,6 +169,9 @@ PoolPlaced = T.Dict(TASKR, T.STR)
 WorkerPool = declare_ref(
     "workers.workers.WorkerPool",
     {"_logger": T.OPAQUE, "_name": T.STR, "_workers": WorkerMap, "_scheduler": T.Ref(None), "_id": T.STR, "_placed_tasks": PoolPlaced},
+    # ghost view of a pool's occupancy for the scheduling-policy contracts: a version that every successful
+    # place_task bumps, and the (task, strategy) of the last placement
+    ghost={"$ver": T.INT, "$last_task": T.Ref(None), "$last_strategy": T.Ref(None)},
 )
 WorkerPool.fields["_scheduler"].nullable = True
 
